@@ -55,4 +55,35 @@ def corruptWsAux : List (List Nat) → List (Bool × Bool) → Bool → Bool →
 def corruptWsCl (s : List (List Nat)) (ds : List (Bool × Bool)) : List (List Nat) :=
   corruptWsAux s ds true false
 
+/-- what the two probabilities allow a single draw `r ∈ [0,1)` to decide: `r < p` is impossible for `p = 0`,
+certain for `p ≥ 1`, open otherwise -/
+structure CwFlags where
+  mayDel : Bool      -- delete probability > 0
+  mustDel : Bool     -- delete probability ≥ 1
+  mayIns : Bool      -- insert probability > 0
+  mustIns : Bool     -- insert probability ≥ 1
+
+/-- probabilities in 1/1000 (clamped to [0, 1] by the code) -/
+def CwFlags.ofPermille (iw dw : Nat) : CwFlags :=
+  { mayDel := 0 < dw, mustDel := 1000 ≤ dw, mayIns := 0 < iw, mustIns := 1000 ≤ iw }
+
+def CwFlags.allows (f : CwFlags) (d : Bool × Bool) : Bool :=
+  (!d.1 || f.mayDel) && (!f.mustDel || d.1) && (!d.2 || f.mayIns) && (!f.mustIns || d.2)
+
+/-- is the code-point string `out` a possible result of `corrupt_whitespace` on the clusters `s` for SOME
+random stream the probabilities allow?  (The property does not fix how the stream is consumed.) -/
+def cwMatch (f : CwFlags) : List (List Nat) → Bool → Bool → List Nat → Bool
+  | [], _, _, out => out.isEmpty
+  | c :: cs, first, prevWs, out =>
+    if isWsCl c then
+      (f.mayDel && cwMatch f cs false true out) ||
+        (!f.mustDel && c.isPrefixOf out && cwMatch f cs false true (out.drop c.length))
+    else
+      let canIns := !first && !prevWs
+      (canIns && f.mayIns && (32 :: c).isPrefixOf out && cwMatch f cs false false (out.drop (c.length + 1))) ||
+        ((!canIns || !f.mustIns) && c.isPrefixOf out && cwMatch f cs false false (out.drop c.length))
+
+def cwAllowed (iw dw : Nat) (s : List (List Nat)) (out : List Nat) : Bool :=
+  cwMatch (CwFlags.ofPermille iw dw) s true false out
+
 end Tu
